@@ -23,7 +23,11 @@ Outcome(reason, bidir, agg, nslots, dsnr) ==
     [members |-> IF agg THEN <<[id |-> "r1", bw |-> 10000, key |-> "k", bidir |-> bidir],
                                [id |-> "r2", bw |-> 30000, key |-> "k", bidir |-> bidir]>>
                  ELSE <<[id |-> "r1", bw |-> 10000, key |-> "k", bidir |-> bidir]>>,
-     reason |-> reason, route |-> IF path THEN Route ELSE <<>>, type |-> "Voyager", mode |-> "mode 1",
+     reason |-> reason,
+     raised |-> IF reason = "" THEN <<>>                      \* a bidirectional request blocked by the mode judgement
+                ELSE IF bidir /\ reason \in NoModeFamily      \* also fails the reverse check: two reasons are raised
+                     THEN <<reason, "MODE_NOT_FEASIBLE">> ELSE <<reason>>,
+     route |-> IF path THEN Route ELSE <<>>, type |-> "Voyager", mode |-> "mode 1",
      nm |-> IF reason # "" THEN <<>> ELSE IF nslots = 1 THEN <<<<-284, 4>>>> ELSE <<<<-284, 4>>, <<12, 8>>>>,
      bidir |-> bidir, hasRev |-> bidir /\ path,
      rx |-> IF path THEN Rx(ThrU + dsnr, 0) ELSE NoRx,
@@ -47,6 +51,7 @@ BandwidthIsSumInv             == Done => BandwidthIsSum(o, e)
 ServedHasPathPropertiesInv    == Done => ServedHasPathProperties(o, e)
 NoPathOnlyReasonInv           == Done => NoPathOnlyReason(o, e)
 BlockedCarriesReasonInv       == Done => BlockedCarriesReason(o, e)
+ReasonIsFirstRaisedInv        == Done => ReasonIsFirstRaised(o, e)
 RouteHopByHopInv              == Done => RouteHopByHop(o, e)
 LabelsEqualNMInv              == Done => LabelsEqualNM(o, e)
 NoLabelWhenBlockedInv         == Done => NoLabelWhenBlocked(o, e)
